@@ -8,6 +8,7 @@ from ..core import hx
 
 class C08(C06):
     ID = "C08"
+    EXTRA_MODULES = []
     LEMMA_FILES = ["FluentProofs/ResolverRefineTop.lean", "FluentProofs/ResolverRefineVal.lean"]
     RULE = ("histories on ONE bundle: every request of a GR bundle issued 2-4 times in random order interleaved with the "
             "other requests (so plural rules are cached and earlier calls have produced errors), the same argument set "
